@@ -215,9 +215,14 @@ func (k Keeper) EscrowReporterStake(ctx context.Context, reporterAddr sdk.AccAdd
 			if err != nil {
 				return err
 			}
-			_, err = k.undelegate(ctx, delAddr, dstVAl, math.LegacyNewDecFromInt(remaining))
+			stillMissing, err := k.undelegate(ctx, delAddr, dstVAl, math.LegacyNewDecFromInt(remaining))
 			if err != nil {
 				return err
+			}
+			// same outcome as when no redelegation exists: the stake that backed the report is gone,
+			// so nothing may be recorded as escrowed that was not moved
+			if !stillMissing.IsZero() {
+				return errors.New("not enough stake left with the redelegation destination to escrow the disputed amount")
 			}
 			disputeTokens = append(disputeTokens, &types.TokenOriginInfo{
 				DelegatorAddress: del.DelegatorAddress,
